@@ -116,7 +116,7 @@ class Harness:
         self.real_spawn_default = per < 0.15
         ctx.note("snakeoil spawn_bash costs %.3f s per call here: the enumeration uses %s" % (
             per, "the real spawn_bash everywhere" if self.real_spawn_default else
-            "a vfork stand-in for spawn_bash except for the n=1 stratum and the pinned witnesses"))
+            "a vfork stand-in for spawn_bash except for the n=1 fully-checksummed stratum and the pinned witnesses"))
 
     def run(self, cfg, seq, real_spawn=None):
         """Run one fetch(); seq = list of (act, rc).  -> (invocations, result, final content)"""
@@ -253,7 +253,7 @@ def run(ctx):
             ctx.count("units_not_started")
             continue
         complete = True
-        real = True if (cfg["attempts"] == 1 and cfg["stratum"].startswith("A:")) else None
+        real = True if (cfg["attempts"] == 1 and cfg["T"] == "full" and cfg["stratum"].startswith("A:")) else None
         it = gen.walk(first, L, lambda s: evaluate(ctx, h, cfg, [gen.ALPHABET[x] for x in s], real_spawn=real))
         for _seq, _k, covered in it:
             ctx.count("sequences_covered", covered)
